@@ -32,6 +32,8 @@ def rv_case(rng, tier):
         else:
             c = rvasmgen.asm_case(rng, fault_prob=0.4, opts={"no_sys": True})
             t = c.meta["text"]
+            if any(w in t.lower() for w in ("csr", "fence", "ebreak")):
+                t = rng.choice(RV_TEXTS)          # CSR/FENCE/EBREAK execution is outside the model (and outside C01/C02)
         lines += [f"sim.load {rvasmgen.hx(t)}", "sim.snap"]
     for _ in range(rng.choice([2, 6, 15])):
         if rng.random() < 0.75:
